@@ -247,8 +247,22 @@ def _run_system(args):
             d = ofro(xn - xc) / nx if (xn is not None and np.all(np.isfinite(xc)) and np.all(np.isfinite(xn))) else float("inf")
             ev.append({"tid": tid, "ev": "Pair", "kind": "scale", "cls": cname, "c_lg": lg(c),
                        "diff_lg": lg(d), "bound_lg": max(lg(tol), FLOOR) + lg(cond) + 256})
-    # a REUSED solver whose matrix argument was updated in place between two solves (same array object)
+    # ALIASED arguments: the right-hand side is a view of the matrix's first column (the answer is e_1) - an in-place
+    # shortcut on either argument must not disturb the other
     S_ = lib().solver
+    for prec in ("none", "left_lu"):
+        Aq = q_from_float(A)
+        bview = Aq[:, 0:1]
+        xa, _ = S_.QGMRESSolver(tol=1e-10, preconditioner=prec).solve(Aq, bview)
+        xaf = q_to_float(np.asarray(xa)).reshape(n, -1, 4)
+        e1 = np.zeros_like(xaf)
+        e1[0, 0, 0] = 1.0
+        tid += 1
+        okargs = bool(np.array_equal(q_to_float(Aq), A))
+        d = ofro(xaf - e1) if (np.all(np.isfinite(xaf)) and okargs) else float("inf")
+        ev.append({"tid": tid, "ev": "Pair", "kind": "reuse", "cls": cname, "prec": prec, "aliased_rhs": True,
+                   "diff_lg": lg(d), "bound_lg": lg(1e-10) + max(0, lg(cond)) + 256})
+    # a REUSED solver whose matrix argument was updated in place between two solves (same array object)
     for prec in ("none", "left_lu"):
         try:
             sol = S_.QGMRESSolver(tol=1e-10, preconditioner=prec)
